@@ -79,7 +79,16 @@ func PFrac(a, b int64) Poly {
 	return PRat(big.NewRat(a, b))
 }
 
+// nilAtom stands in for an atom a recogniser did not find (a loop without a
+// recognisable induction variable on a changed tree): every comparison with it
+// fails, so the obligation that needed it is reported instead of the analyser
+// stopping.
+var nilAtom = &Atom{Key: "⊥unrecognised", Kind: "opq", Root: "⊥unrecognised"}
+
 func PAtom(a *Atom) Poly {
+	if a == nil {
+		a = nilAtom
+	}
 	p := PZero()
 	t := &Term{C: big.NewRat(1, 1), M: []Factor{{A: a, E: 1}}}
 	p.T[t.monoKey()] = t
